@@ -380,7 +380,7 @@ pub fn run_c12(ctx: &Ctx, rep: &mut Report) {
                         Ok(Err((sig, d))) => rep.finding(sig, format!("fault {kind:?}{} at underlying call #{k}: {d}", if partial { " (short then fail)" } else { "" }), fw()),
                         Err(p) => rep.finding(p.signature(), format!("fault at underlying call #{k}: panic at {}:{}: {}", p.file, p.line, p.message), fw()),
                     }
-                    rep.nontrivial(fnv64_add(fnv64_add(w, &k.to_le_bytes()), &[vi as u8, partial as u8]));
+                    rep.nontrivial(fnv64_add(fnv64_add(crate::rng::fnv64(&w.to_le_bytes()), &k.to_le_bytes()), &[vi as u8, partial as u8]));
                 }
             }
         }
@@ -664,6 +664,24 @@ fn w_exec(st: &mut WState, step: &WStep, rep: &mut Report) -> Result<Result<(), 
                                     if after_failed {
                                         rep.count("ok_flush_after_failed_flush_readbacks");
                                     }
+                                    // "is in the compound file": the raw bytes, reopened, hold them too
+                                    let bytes = st.shared.bytes();
+                                    let (f2, _s2) = MonFile::new(bytes);
+                                    match CompoundFile::open(f2) {
+                                        Ok(mut cf2) => {
+                                            let mut got2 = Vec::new();
+                                            match cf2.open_stream(&path).and_then(|mut f| f.read_to_end(&mut got2)) {
+                                                Ok(_) if got2 == want => rep.count("ok_flush_reopen_readbacks"),
+                                                Ok(_) => {
+                                                    return Err(("flush Ok | accepted bytes are not in the reopened file".to_string(), format!("{path}: {}", if got2.len() == want.len() { engine::describe_bytes_diff(&want, &got2) } else { format!("{} bytes accepted, reopened file holds {}", want.len(), got2.len()) })));
+                                                }
+                                                Err(e) => {
+                                                    return Err(("flush Ok | accepted bytes cannot be read from the reopened file".to_string(), format!("{path}: {e} (the live object reads them fine)")));
+                                                }
+                                            }
+                                        }
+                                        Err(_) => rep.count("reopen_unavailable"),
+                                    }
                                 }
                                 Err(_) => rep.count("readback_unavailable"),
                             }
@@ -792,7 +810,7 @@ pub fn run_c13(ctx: &Ctx, rep: &mut Report) {
                     break; // k is beyond the last call of this kind
                 }
                 rep.count(&format!("positions.{label}"));
-                rep.nontrivial(fnv64_add(fnv64_add(w, &k.to_le_bytes()), label.as_bytes()));
+                rep.nontrivial(fnv64_add(fnv64_add(crate::rng::fnv64(&w.to_le_bytes()), &k.to_le_bytes()), label.as_bytes()));
                 k += 1;
                 if k > 200_000 {
                     break;
